@@ -26,6 +26,7 @@ CONSTANTS
   CookieThreshold,  \* cookie armed iff #half-open IKE_SAs (incl. the new one) > CookieThreshold
   StartEstablished, \* TRUE: start from one established IKE_SA with one CHILD_SA; FALSE: empty tables
   MaxSpi,           \* state constraint: SPI counters stay <= MaxSpi
+  FreeRetx,         \* TRUE: retransmissions do not draw on the duplication budget (liveness configuration)
   KnownToBothOnly,  \* TRUE: expire triggers only for CHILD_SAs already known to both peers (the carve-out of C09)
   AsPinned_C16      \* TRUE: register the rekeyed IKE_SA on the *state* (pinned tree), FALSE: on the transition
 
@@ -261,7 +262,7 @@ TrigDpd(s)       == TimerReq(s, "dpd", "DPD_REQ_SENT", "INFO", [kind |-> "dpd"],
 \* check_retransmission_timer (ikesa.py:860-874), abstract time: the stored request goes out again, unchanged
 Retransmit(s) ==
   /\ s \in Listed(Owner(s)) /\ sas[s].st \in WaitingStates /\ sas[s].req # NoMsg /\ sas[s].req \notin net
-  /\ dups > 0 /\ dups' = dups - 1
+  /\ IF FreeRetx THEN dups' = dups ELSE dups > 0 /\ dups' = dups - 1
   /\ net' = net \cup {sas[s].req}
   /\ UNCHANGED <<sas, table, kern, nspi, trig, loss, dh>>
   /\ last' = [a |-> "Retransmit", s |-> s, out |-> sas[s].req]
@@ -270,7 +271,7 @@ Retransmit(s) ==
 \* (a give-up means every transmission or its answer was lost: it draws on the loss budget)
 GiveUp(s) ==
   /\ s \in Listed(Owner(s)) /\ sas[s].st \in WaitingStates /\ sas[s].req \notin net
-  /\ loss > 0 /\ loss' = loss - 1
+  /\ IF FreeRetx THEN loss' = loss ELSE loss > 0 /\ loss' = loss - 1
   /\ Post(Owner(s), s, sas[s].st, [sas EXCEPT ![s].st = "DELETED"], kern[Owner(s)])
   /\ UNCHANGED <<net, nspi, trig, dups, dh>>
   /\ last' = [a |-> "GiveUp", s |-> s, out |-> NoMsg]
@@ -539,8 +540,9 @@ Spec == Init /\ [][Next]_vars
 
 \* weak fairness of delivery and of the retransmission / give-up timer: C09 liveness
 Fairness ==
-  /\ WF_vars(\E m \in net : CtlDispatch(m, FALSE))
-  /\ WF_vars(\E s \in DOMAIN sas : GiveUp(s))
+  /\ \A e \in E : \A r \in BOOLEAN : WF_vars(\E m \in net : m.dst = e /\ m.resp = r /\ CtlDispatch(m, FALSE))
+  /\ WF_vars(\E s \in DOMAIN sas : Retransmit(s))
+  /\ SF_vars(\E s \in DOMAIN sas : GiveUp(s))          \* the retransmission budget is finite
 FairSpec == Spec /\ Fairness
 
 StateConstraint == \A e \in E : nspi[e] <= MaxSpi
